@@ -68,7 +68,9 @@ LocalNames == {env[i].n : i \in 1..Len(env)}
 Holder(x) == IF x = "G" THEN (IF gdef = 0 THEN Nothing ELSE Tab(gdef))
              ELSE LET S == {i \in 1..Len(env) : env[i].n = x}
                   IN env[CHOOSE i \in S : \A j \in S : j <= i].h
-Visible == LocalNames \cup {"G"}
+\* (the global table is used only after the statement that creates it, in file order: a program that indexes G before
+\* any `G = {}` cannot run)
+Visible == LocalNames \cup (IF gdef = 0 THEN {} ELSE {"G"})
 
 Add(it) == files' = [files EXCEPT ![cur] = Append(@, it)]
 
@@ -109,10 +111,12 @@ Alias(x) ==
     /\ env' = Append(env, [n |-> "L", h |-> Holder(x)])
     /\ UNCHANGED <<cur, ret, ntab, gdef>>
 
-MStyles == {"dot", "colon", "assignfn", "field"}
+\* "deep" / "deepfield": the member is reached through an intermediate member that is created on the way:
+\*   function X.sub.m(p) return p end   /   X.sub.m = 1
+MStyles == {"dot", "colon", "assignfn", "field", "deep", "deepfield"}
 \* "self" / "selfnest": the member is read through the implicit self of a colon method of X (directly, or from a
 \* function literal nested in the method):  function X:zz(p) return self.m end
-UStyles == {"read", "call", "mcall", "self", "selfnest"}
+UStyles == {"read", "call", "mcall", "self", "selfnest", "deepread"}    \* deepread: print(X.sub.m)
 
 \* a member definition on the table held by x
 MDef(x, st, m) ==
